@@ -91,5 +91,5 @@ SPEC = dict(
                'worst end residuals observed there stay >= 14x below C*eps*S, coefficient errors <= 0.45 of the 16 eps*sum|terms| bound (thorough, seeds 1..3).',
     technique='randomised input sweep with boundary-condition residual monitors, __float128 reference evaluation with a-priori error '
               'bounds, exact-arithmetic regime with bitwise oracles, under ASan+UBSan'
-              '; float / long double companion harness; C++ member vs C function twin execution on one object',
+              '; float / long double companion harness; C++ member vs C function twin execution on one object; literal-length call sites of the inline routines',
 )
